@@ -202,8 +202,24 @@ def keyCheckOp (inp : Json) : Except String Json := do
     ("r_in_span", pk.r.all fun (_, g) => inSpan g),
     ("r_keys", Json.arr ((sortStrings (keys pk.r)).map Json.str).toArray)]
 
+/-- `Issuer::_gen_credential_context` on a batch of (prover id, revocation index) pairs -/
+def ctxOp (inp : Json) : Except String Json := do
+  let rustBackend := (← getStr inp "backend") == "rust"
+  let items ← getArr inp "items"
+  let mut out : Array Json := #[]
+  for it in items do
+    let pid ← getStr it "prover_id"
+    let revIdx : Option Nat := match optField it "rev_idx" with
+      | some j => j.getNat?.toOption
+      | none => none
+    let m2 := genCredentialContext Sha.sha256 Sha.bytesToNat (fun x => encInt rustBackend (x : Int))
+      (fun (i : Int) => toString i) pid revIdx
+    out := out.push (Json.str (toString m2))
+  return Json.mkObj [("m2", Json.arr out)]
+
 def dispatchIssuance (op : String) (inp : Json) : Option (Except String Json) :=
   match op with
+  | "ctx" => some (ctxOp inp)
   | "blinded_check" => some (blindedCheckOp inp)
   | "key_proof_check" => some (keyProofCheckOp inp)
   | "sig_check" => some (sigCheckOp inp)
